@@ -283,19 +283,44 @@ def _token_forms(ctx, repo):
                msg=f"the readable form of a {kind} (writer constants {cs}) is not the form kg_read recognises ({rdesc}): written {kind}s do not read back")
     # quote doubling: the writer doubles '"' inside strings, the string reader un-doubles
     ws = repo.fn("writer:kg_write_string")
-    def is_quote_test(t):
-        return isinstance(t, ast.Compare) and len(t.ops) == 1 and isinstance(t.ops[0], ast.Eq) and isinstance(t.comparators[0], ast.Constant) and t.comparators[0].value == '"'
-    doubles = any(isinstance(n, ast.If) and is_quote_test(n.test) and any(isinstance(c, ast.Call) and callee_name(c) == "append" and c.args and isinstance(c.args[0], ast.Constant) and c.args[0].value == '"'
-                                                                         for s_ in n.body for c in ast.walk(s_)) for n in walk_local(ws.node))
+
+    def with_callees(f):
+        """the function and the same-module functions it calls (one level): helpers extracted from it count as part of it"""
+        out = [f.node]
+        for c in calls_in(f.node):
+            g = f.module.funcs.get(callee_name(c) or "")
+            if g is not None and g.node is not f.node:
+                out.append(g.node)
+        return out
+
+    def quote_fact(node, fnode):
+        """True when the code at node runs only for a character known to be the double quote"""
+        for e, pol in atoms_at(node, fnode):
+            if isinstance(e, ast.Compare) and len(e.ops) == 1 and isinstance(e.comparators[0], ast.Constant) and e.comparators[0].value == '"':
+                if (isinstance(e.ops[0], ast.Eq) and pol) or (isinstance(e.ops[0], ast.NotEq) and not pol):
+                    return True
+        return False
+    doubles = False
+    for fn_ in with_callees(ws):
+        for n in ast.walk(fn_):
+            # a second quote is emitted for a quote: append('"') / '""' constant under the quote fact, or str.replace('"', '""')
+            if isinstance(n, ast.Call) and callee_name(n) == "append" and n.args and isinstance(n.args[0], ast.Constant) and n.args[0].value == '"' and quote_fact(n, fn_):
+                doubles = True
+            if isinstance(n, ast.Constant) and n.value == '""' and (quote_fact(n, fn_)):
+                doubles = True
+            if isinstance(n, ast.Call) and callee_name(n) == "replace" and len(n.args) == 2 and all(isinstance(a, ast.Constant) for a in n.args) and n.args[0].value == '"' and n.args[1].value == '""':
+                doubles = True
     rs = repo.fn("parser:read_string")
-    undoubles = any(isinstance(n, ast.If) and is_quote_test(n.test) and any(isinstance(x, ast.If) and any(isinstance(c, ast.Call) and callee_name(c) == "cmatch" and len(c.args) == 3 and
-                    isinstance(c.args[2], ast.Constant) and c.args[2].value == '"' for c in ast.walk(x.test)) for x in n.body) for n in walk_local(rs.node))
+    # the reader looks at the character after a quote and takes a second quote as a literal one
+    undoubles = any(isinstance(c, ast.Call) and callee_name(c) in ("cmatch", "cpeek") and any(isinstance(a, ast.Constant) and a.value == '"' for a in c.args) and quote_fact(c, rs.node)
+                    for c in ast.walk(rs.node)) or \
+        any(isinstance(c, ast.Compare) and isinstance(c.comparators[0], ast.Constant) and c.comparators[0].value == '"' and quote_fact(c, rs.node) for c in ast.walk(rs.node))
     ctx.instance("C11-R4", ws.fq, "quote doubling")
     ctx.ob("C11-R4", ws.fq, "embedded quotes: the writer doubles them and the string reader accepts a doubled quote as one quote", doubles and undoubles, node=ws.node, construct="quote doubling agreement",
            msg="writer and reader disagree on how a double quote inside a string is represented")
     # list elements are separated by blanks, which the list reader skips
     wl = repo.fn("writer:kg_write_list")
-    sep = any(isinstance(c, ast.Call) and callee_name(c) == "join" and isinstance(c.func.value, ast.Constant) and c.func.value.value == " " for c in ast.walk(wl.node))
+    sep = any(isinstance(c, ast.Call) and callee_name(c) == "join" and isinstance(c.func.value, ast.Constant) and c.func.value.value == " " for fn_ in with_callees(wl) for c in ast.walk(fn_))
     rl = repo.fn("parser:read_list")
     skips = sum(1 for c in calls_in(rl.node) if callee_name(c) == "skip") >= 2
     ctx.ob("C11-R4", wl.fq, "list elements are written blank-separated and the list reader skips blanks between elements", sep and skips, node=wl.node, construct="list separator agreement")
